@@ -243,9 +243,31 @@ func (p c20) bareFactory(c *core.Ctx) {
 	c.Nontrivial(fmt.Sprintf("barefactory:%d:%d", n, c.Index))
 }
 
+// manyScanFailures: a user scanner rejects every component of a larger application (20..60 components) in
+// the same parallel pass: the start fails, and the failing goroutines' bookkeeping is race free.
+func (p c20) manyScanFailures(c *core.Ctx) {
+	sc := RandomGraph(c.Rng, GraphOpts{MinN: 20, MaxN: 60, Types: world.TypesAll, PCycle: 0.3, Chords: 2, PUnnamed: 0.2})
+	scanner := &world.FaultScanner{Nm: "verif.rejecting-scanner", FailFor: map[string]bool{"*": true}}
+	if c.Rng.Intn(2) == 0 {
+		scanner.Gate = func(string, bool) { runtime.Gosched() }
+	}
+	r := world.Start(sc, world.Options{Extra: []any{scanner}})
+	c.Count("race_starts", 1)
+	c.Count("starts_with_every_definition_scan_failing", 1)
+	if r.Outcome() != "error" {
+		c.Fail("", fmt.Sprintf("a user scanner rejected all %d components, App.Run: %s", len(sc.Nodes), core.Short(r.OutcomeDetail(), 300)), failDetail(sc, r, nil))
+		return
+	}
+	c.Nontrivial(fmt.Sprintf("manyscanfailures:%d:%s", len(sc.Nodes), sc.GraphSig()))
+}
+
 func (p c20) RunRace(c *core.Ctx) {
 	if c.Index%16 == 9 {
 		p.bareFactory(c)
+		return
+	}
+	if c.Index%16 == 1 {
+		p.manyScanFailures(c)
 		return
 	}
 	if c.Index%4 == 3 {
